@@ -259,11 +259,98 @@ func FreshDecl(t *rapid.T, doc *Doc, kind string) []*Dir {
 		u := &Dir{ID: nid(), Kw: "URL", Params: []string{"/freshurl"}}
 		u.Children = []*Dir{{ID: nid(), Kw: "POST", Children: []*Dir{any200()}}}
 		return []*Dir{u}
+	case "URLPATH":
+		// a URL block that declares its own path parameter
+		u := &Dir{ID: nid(), Kw: "URL", Params: []string{"/freshurl2/{fid}"}}
+		pd := &Dir{ID: nid(), Kw: "Path", Schema: &Schema{Notation: "jsight", Root: "obj", Obj: &Obj{Props: []Prop{{Key: "fid", V: Val{Kind: "int", Int: 1}}}}}}
+		u.Children = []*Dir{pd, {ID: nid(), Kw: "GET", Children: []*Dir{any200()}}}
+		return []*Dir{u}
+	case "MACRO2":
+		// an unused macro that pastes an existing macro twice (no cycle)
+		m := &Dir{ID: nid(), Kw: "MACRO", Params: []string{"@freshMacro2"}, Explicit: true}
+		name := ""
+		doc.Flat().Walk(func(d, p *Dir) {
+			if name == "" && d.Kw == "PASTE" && p != nil && IsVerb(p.Kw) && len(d.Params) > 0 {
+				name = d.Params[0]
+			}
+		})
+		for i, vb := range []string{"GET", "POST"} {
+			md := &Dir{ID: nid(), Kw: vb, Params: []string{fmt.Sprintf("/freshm%d", i)}}
+			if name != "" {
+				md.Children = append(md.Children, &Dir{ID: nid(), Kw: "PASTE", Params: []string{name}})
+			} else {
+				md.Children = append(md.Children, any200())
+			}
+			m.Children = append(m.Children, md)
+		}
+		return []*Dir{m}
+	case "COPY":
+		// a copy of an existing top-level method / URL block (one that pastes a
+		// macro when there is one) on a path with a fresh first segment
+		var cands, withPaste []*Dir
+		for i, d := range doc.Top {
+			if (d.Kw != "URL" && !IsVerb(d.Kw)) || len(d.Params) == 0 || d.Hoisted || strings.Contains(d.Params[0], " ") {
+				continue
+			}
+			if d.Kw == "URL" && i+1 < len(doc.Top) && doc.Top[i+1].Hoisted {
+				continue
+			}
+			bad, paste := false, false
+			var rec func(x *Dir)
+			rec = func(x *Dir) {
+				if x.Kw == "Tags" || x.Kw == "INCLUDE" {
+					bad = true
+				}
+				if x.Kw == "PASTE" {
+					paste = true
+				}
+				for _, ch := range x.Children {
+					rec(ch)
+				}
+			}
+			rec(d)
+			// Tags brought in by a pasted macro would change an existing tag's entry
+			if paste {
+				doc.Walk(func(x, par *Dir) {
+					if x.Kw == "Tags" {
+						for q := par; q != nil; q = doc.parentOf(q) {
+							if q.Kw == "MACRO" {
+								bad = true
+							}
+						}
+					}
+				})
+			}
+			if bad {
+				continue
+			}
+			cands = append(cands, d)
+			if paste {
+				withPaste = append(withPaste, d)
+			}
+		}
+		if len(withPaste) > 0 {
+			cands = withPaste
+		}
+		if len(cands) == 0 {
+			return []*Dir{{ID: nid(), Kw: "GET", Params: []string{"/freshp/none"}, Children: []*Dir{any200()}}}
+		}
+		c := cands[rapid.IntRange(0, len(cands)-1).Draw(t, "copyOf")].Copy()
+		var renum func(x *Dir)
+		renum = func(x *Dir) {
+			x.ID = nid()
+			for _, ch := range x.Children {
+				renum(ch)
+			}
+		}
+		renum(c)
+		c.Params[0] = "/freshp" + c.Params[0]
+		return []*Dir{c}
 	}
 	return nil
 }
 
-var FreshKinds = []string{"TYPE", "ENUM", "SERVER", "TAG", "MACRO", "METHOD", "URL"}
+var FreshKinds = []string{"TYPE", "ENUM", "SERVER", "TAG", "MACRO", "METHOD", "URL", "URLPATH", "MACRO2", "COPY"}
 
 // WithUnitAt inserts the unit before the pos-th permutable unit.
 func (doc *Doc) WithUnitAt(unit []*Dir, pos int) *Doc {
